@@ -184,7 +184,7 @@ PROPS["C14"] = dict(
     pkg="./props/c14_race",
     race=True,
     tests=[REGRESS(), T("TestGeneratedPrograms", (8, 2500), (16, 40000)), T("TestTwoCancellationSources", (2, 12), (4, 150)), T("TestHTTPHedgedRace", (2, 12), (4, 150))],
-    rule="(TestHTTPHedgedRace) hedged HTTP requests through one shared executor and transport from 2..4 goroutines, the server answering all attempts of a request together; (TestTwoCancellationSources) executions cancelled from two sides at about the same instant (a context deadline and an enclosing Timeout with nearly the same limit) while a rate limiter, bulkhead or retry delay waits inside, 8 goroutines x 500 repetitions per case; rapid-generated concurrent programs executed under the Go race detector: 1..5 policies of all eight kinds (stateful instances shared), 2..8 (thorough 32) goroutines running sync / async / async-then-Cancel / context-cancelled executions with generated durations and failure counts, firing timeouts, real hedging with 0..150 us delays, retries with backoff and jitter, plus 0..3 goroutines hammering the standalone APIs (breaker Record*/Open/Close/HalfOpen/State/Metrics/TryAcquirePermit, bulkhead and limiter permits), every listener and the function reading every accessor of what they are handed; verdict = race detector reports whose access stacks contain a frame of the module, de-duplicated by the pair of top module frames; plus panics and a 60 s hang watchdog; non-trivial = a stateful instance was shared AND a policy-started goroutine (hedge attempt, timeout timer, async runner) was live; distinct = the program",
+    rule="(TestHTTPHedgedRace) hedged HTTP requests through one shared executor and transport from 2..4 goroutines, the server answering all attempts of a request together, the requests without a body or with one of 64 KiB / 4 MiB from a plain reader (uploads of the attempts overlap); (TestTwoCancellationSources) executions cancelled from two sides at about the same instant (a context deadline and an enclosing Timeout with nearly the same limit) while a rate limiter, bulkhead or retry delay waits inside, 8 goroutines x 500 repetitions per case; rapid-generated concurrent programs executed under the Go race detector: 1..5 policies of all eight kinds (stateful instances shared), 2..8 (thorough 32) goroutines running sync / async / async-then-Cancel / context-cancelled executions with generated durations and failure counts, firing timeouts, real hedging with 0..150 us delays, retries with backoff and jitter, plus 0..3 goroutines hammering the standalone APIs (breaker Record*/Open/Close/HalfOpen/State/Metrics/TryAcquirePermit, bulkhead and limiter permits), every listener and the function reading every accessor of what they are handed; verdict = race detector reports whose access stacks contain a frame of the module, de-duplicated by the pair of top module frames; plus panics and a 60 s hang watchdog; non-trivial = a stateful instance was shared AND a policy-started goroutine (hedge attempt, timeout timer, async runner) was live; distinct = the program",
     assumptions=["the race detector's verdict depends on happens-before, not on the race manifesting, but only for code paths the generated programs actually execute",
                  "race reports whose two access stacks contain no module frame are harness code and are not attributed to the module (reported as a note)"],
 )
